@@ -6,7 +6,7 @@ set of the tier, replay every trace through the Lean model (driver), collect
   * divergence kinds of the trace replay (R lines).
 The artefacts are cached by (tree hash, seed, tier) so the properties of the group share one run.
 """
-import json, os, re, shutil, time
+import json, os, re, shutil, subprocess, time
 from . import common as C
 from . import lean as L
 
@@ -213,9 +213,12 @@ def shrink(tree, pid, lines, tries=30):
         with open(tmp, "w") as f:
             f.write(scenario_text(ls))
         out = tmp + ".out"
-        p = C.sh([os.path.join(d, "schedrun"), "-replay", tmp, "-repeat", "30", "-out", out], check=False, timeout=300)
+        try:
+            p = C.sh([os.path.join(d, "schedrun"), "-replay", tmp, "-repeat", "30", "-out", out], check=False, timeout=300)
+        except subprocess.TimeoutExpired:
+            p = None  # the candidate hangs the replay: not a smaller reproduction of this oracle failure
         ok = False
-        if p.returncode == 0:
+        if p is not None and p.returncode == 0:
             with open(out) as f:
                 ok = any(l.startswith("O %s FAIL" % pid) for l in f)
         for x in (tmp, out):
